@@ -20,6 +20,7 @@ RULE = ("(a) system: 1-3 priority classes over 1-3 customer classes, FIFO/LIFO/S
         "in one class or candidates in >= 2 classes; distinct by digest.")
 ASSUMPTIONS = ["a customer whose priority changes while queueing joins the tail of its new class queue (S3)",
                "restarts of schedule-interrupted customers and slotted nodes are C12's subject"]
+TECHNIQUE = "property-based testing: every service start (attach_server / slot difference) compared with a priority + discipline oracle using the monitor's own arrival order; unit checks of the discipline functions"
 WALL = {"quick": 150, "thorough": 540}
 
 ALLOWED = ["schedule", "sched_preempt", "slotted", "slot_capacitated", "slot_preempt", "capacity", "priorities", "prio_preempt", "batching", "cc_after", "cc_waiting", "discipline", "server_priority",
